@@ -6,5 +6,5 @@ tier=${1:-quick}; shift
 ids=${@:-$(ls seeded | grep -E '^C[0-9]+[a-z]$')}
 for id in $ids; do
   p=${id:0:3}
-  /usr/bin/python3 rig/try_seed.py seeded/$id $p --tier $tier 2>&1 | grep -v "^WARNING" | cut -c1-260 | head -8
+  /usr/bin/python3 rig/try_seed.py /verif/seeded/$id $p --tier $tier 2>&1 | grep -v "^WARNING" | cut -c1-260 | head -8
 done
